@@ -148,6 +148,8 @@ def gen_argv(rng, classes, i):
         longs.append(long_)
     if write and write != 'W' and write[0] == '--write-all':
         longs.append('--write-all')
+    if rng.random() < 0.15:
+        longs.append(rng.choice(['-wquiet', '--wquiet']))       # the documented companion of the write flags: says nothing about selection
     rng.shuffle(longs)
     args += ktail
     # long tdda options may sit before or after the class names
